@@ -89,7 +89,7 @@ theorem matchLeaf_eq_spec (tb : Tables) (st : SpecTables) (xsd11 : Bool) (ha : S
     cases l <;> simp [Leaf.isAtomicName] at hl <;> simp [matchLeaf, specLeaf, ha.atomic, ha.numeric]
   | node k n kids root =>
     have hw : k = .document → kids.length ≤ 1 := by intro e; subst e; simpa [itemDocOK'] using hd
-    cases l <;> simp [matchLeaf, specLeaf, matchLeafNode_eq_spec k n kids _ hw]
+    cases l <;> simp [Leaf.isAtomicName] at hl <;> simp [matchLeaf, specLeaf, matchLeafNode_eq_spec k n kids _ hw]
   | func sa sr => cases l <;> simp [Leaf.isAtomicName] at hl <;> simp [matchLeaf, specLeaf]
   | map es => cases l <;> simp [Leaf.isAtomicName] at hl <;> simp [matchLeaf, specLeaf]
   | array ms => cases l <;> simp [Leaf.isAtomicName] at hl <;> simp [matchLeaf, specLeaf]
